@@ -2,6 +2,7 @@ import RockitModel.Model.Initial
 import RockitModel.Model.Der
 import RockitModel.Model.Inf
 import RockitModel.Model.Stages
+import RockitModel.Model.BSpline
 /-!
 Line-protocol driver: reads an OCP description, a decision point and `run …` requests from
 stdin, evaluates the model over `Rat`, prints canonical answers.
@@ -116,6 +117,8 @@ structure B where
   mP : Array Rat := #[]
   mcons : Array (Con Rat) := #[]
   mobj : Expr := .const 0 1
+  /-- grid of a B-spline (`bs …` line) -/
+  bsxi : List Rat := []
 
 def setAt {β : Type} (a : Array β) (i : Nat) (v : β) (dflt : β) : Array β :=
   let a := if a.size ≤ i then a ++ Array.replicate (i + 1 - a.size) dflt else a
@@ -206,8 +209,22 @@ def stepLine (b : B) (line : String) : Except String (B × List String) := do
   let toks := (line.splitOn " ").filter (· ≠ "")
   match toks with
   | [] => return (b, [])
-  | ["begin"] => return ({ mstages := b.mstages, mrefs := b.mrefs, mV := b.mV, mP := b.mP, mcons := b.mcons, mobj := b.mobj }, [])
+  | ["begin"] => return ({ mstages := b.mstages, mrefs := b.mrefs, mV := b.mV, mP := b.mP, mcons := b.mcons, mobj := b.mobj, bsxi := b.bsxi }, [])
   | ["mbegin"] => return ({}, [])
+  | "bs" :: r => return ({ b with bsxi := (← parseRats r).toList }, [])
+  | ["run", "bs", "basis", d, x] =>
+      let x ← parseRats [x]
+      return (b, ["v " ++ showRats (basisAt b.bsxi d.toNat! x[0]!), "end"])
+  | "run" :: "bs" :: "eval" :: d :: x :: c =>
+      let x ← parseRats [x]
+      let c ← parseRats c
+      return (b, ["v " ++ showRat (splineEval b.bsxi d.toNat! c.toList x[0]!), "end"])
+  | "run" :: "bs" :: "deriv" :: d :: m :: T :: c =>
+      let T ← parseRats [T]
+      let c ← parseRats c
+      return (b, ["v " ++ showRats (signalDerIter b.bsxi T[0]! d.toNat! m.toNat! c.toList), "end"])
+  | ["run", "bs", "greville", d] =>
+      return (b, ["v " ++ showRats (greville b.bsxi d.toNat!), "end"])
   | ["stage_push"] =>
       let c ← b.build
       return ({ b with mstages := b.mstages.push c }, [])
